@@ -161,7 +161,7 @@ def run_job(job):
         from vf.runner import run_concur_job
         ops = seq_ops(dict(job, shard=[0, 1]))
         scens = [{"threads": [ops[i] for i in sc[0]], "warm": [ops[i] for i in sc[1]], "post": [ops[i] for i in (sc[2] if len(sc) > 2 else ())]} for sc in CONCUR_SCEN]
-        return run_concur_job(job, scens, run_case, PROPERTY, CONCUR_FILES)
+        return run_concur_job(job, scens, run_case, PROPERTY, CONCUR_FILES, alphabet=ops)
     if job["part"] == "longhist":
         from vf.runner import run_long_job, default_long_ops
         return run_long_job(job, default_long_ops(seq_ops, job), run_case)
